@@ -205,6 +205,22 @@ def fam_lcp128x(r, n):
         out.add(pre)
     return norm(out)
 
+def fam_geometric_big(r, n):
+    # ~n strings over letters with geometric frequencies plus a few strings using bytes that occur once or twice in the whole text:
+    # with >= 2^17 characters the rare bytes get Huffman / Hu-Tucker codewords longer than the 16-bit chunk of the decoding table
+    letters = bytes(range(ord("a"), ord("a") + 18))
+    weights = [2 ** (18 - i) for i in range(18)]
+    out = set()
+    while len(out) < n:
+        out.add(bytes(r.choices(letters, weights)[0] for _ in range(r.randint(4, 12))))
+    rare = [0x03, 0x05, 0x23, 0x7E, 0x90, 0xA1, 0xE9, 0xFD]
+    for b in rare:
+        w = bytes(r.choices(letters, weights)[0] for _ in range(r.randint(2, 5)))
+        out.add(bytes([b]) + w)                      # sorts first / last: always among the sampled members
+        if r.random() < 0.6:
+            out.add(w + bytes([b]) + w[:2])
+    return norm(out)
+
 FAMILIES = {
     "uniform26": lambda r, n: fam_uniform(r, n, "a26", 1, 12),
     "uniform2": lambda r, n: fam_uniform(r, n, "a2", 1, 14),
